@@ -1,8 +1,7 @@
 CONSTANTS
   WithDone = TRUE
   TrackerBug = "none"
-  Shapes <- AnyShapes
-INIT TInit
-NEXT TNext
-INVARIANTS EmitProgress
+  Shapes <- ShapesDoneQuick
+SPECIFICATION Spec
+PROPERTIES Termination
 CHECK_DEADLOCK FALSE
